@@ -190,7 +190,7 @@ class C04(Check):
             sg.update(sig)
             viol.append({"sig": sg, "what": what, "detail": detail})
 
-        compiled_run = not (r1.exit != 0 and "Did not compile" in r1.err)
+        compiled_run = not (driver.compile_rejected(r1))
         if r2 is None:
             # `compile` did not produce bytecode (diagnostic or compiler crash, which is C16's business):
             # `run` must not have executed the program successfully either
